@@ -26,9 +26,11 @@ RULE = ("lines of 1-7 ordinates k/8 on increasing half-integer thresholds: non-d
         "duplicating the grid; 4 fill methods x min_nonnan 0-4; tolerances 0, k/8 and exactly the total decrease; observations on/between/outside "
         "thresholds or NaN (+-inf for observed_cdf / round_values); thresholds moved to base + scale * x (1e6, 101325 at 1/16, ...) in 30 % of the fill / "
         "add_thresholds / adjust calls; observations lacking a forecast dimension in 30 % of the adjust calls; Datasets of 2-3 variables with different "
-        "NaN positions for propagate_nan; a case is distinct by the hash of function + inputs and non-trivial when the function returns a value")
+        "NaN positions for propagate_nan; optional arguments (min_nonnan, threshold_values / include_obs_in_thresholds / precision, final_round_decpl, piece_weight, "
+        "the four options of adjust_fcst_for_crps) omitted in 25-35 % of the calls against the call with the documented defaults written out; add_thresholds over every line "
+        "of length 1-4 over {NaN,0,1/2,1} x 5 methods x min_nonnan 1-3; a case is distinct by the hash of function + inputs and non-trivial when the function returns a value")
 ASSUMPTIONS = ["thresholds are finite; observations passed to adjust_fcst_for_crps are finite or NaN (an infinite one is only checked through the relation "
-               "'treated as a missing observation', known finding adjust-infinite-observation); observed_cdf and round_values are checked with +-inf too",
+               "'treated as a missing observation', finding adjust-infinite-observation repaired in /repo by dfedbb7); observed_cdf and round_values are checked with +-inf too",
                "round_values is checked for dyadic precisions whose multiples have at most 7 decimals"]
 TRUSTED = ["hand model of np.fmax.accumulate / np.flip / interpolate_na / ffill / bfill / idxmax / combine_first in coq/model/Cdf.v (validated by correspondence)"]
 
@@ -45,7 +47,13 @@ EXPECT_COUNTS = ["envelope", "envelope:line_alone", "envelope:decrease_across_na
                  "adjust:some_decreasing", "adjust:none_decreasing", "adjust:chosen_original", "adjust:chosen_upper", "adjust:chosen_lower",
                  "adjust:never_flatters_checked", "adjust:tie_corpus", "adjust:error_path", "adjust:obs_lacks_fcst_dim", "adjust:thresholds_far_from_zero",
                  "adjust:inf_obs_as_missing", "adjust:tolerated_dip_next_to_flagged", "probe:adjust_tolerated_next_to_flagged", "probe:adjust_boundary", "probe:adjust_dense_additional_thresholds", "probe:adjust_obs_lacks_fcst_dim",
-                 "sweep_lines"]
+                 "sweep_lines",
+                 "add_thresholds:min_nonnan_1", "add_thresholds:min_nonnan_1:line_with_one_known_point", "integrate", "integrate:piece_weight",
+                 "round_values:final_round_decpl_other", "round_values:seven_decimals", "probe:defaults",
+                 "defaults:add_thresholds:min_nonnan", "defaults:round_values:final_round_decpl", "defaults:integrate_square_piecewise_linear:piece_weight",
+                 "defaults:observed_cdf:threshold_values", "defaults:observed_cdf:include_obs_in_thresholds", "defaults:observed_cdf:precision",
+                 "defaults:adjust_fcst_for_crps:decreasing_tolerance", "defaults:adjust_fcst_for_crps:additional_thresholds",
+                 "defaults:adjust_fcst_for_crps:fcst_fill_method", "defaults:adjust_fcst_for_crps:integration_method"]
 
 TD = "thr"
 NAN = float("nan")
@@ -248,6 +256,54 @@ def same_line(got, want, tol=1e-9):
 
 
 # ------------------------------------------------------------------------------------------
+# defaults: the documented default of every optional argument of the tools (signature + docstring of the pinned tree).  A call that omits
+# an argument must equal the call that writes the documented default out; the result then goes through the plain statements below with
+# the default value, so a default changed in a signature (or a keyword no longer forwarded) is seen with a failing input.
+DOC = {"add_thresholds": dict(min_nonnan=2),
+       "observed_cdf": dict(threshold_values=None, include_obs_in_thresholds=True, precision=0),
+       "round_values": dict(final_round_decpl=7),
+       "integrate_square_piecewise_linear": dict(piece_weight=None),
+       "adjust_fcst_for_crps": dict(decreasing_tolerance=0, additional_thresholds=None, fcst_fill_method="linear", integration_method="exact")}
+
+
+def omit_some(rng, fname, p=0.35):
+    """the optional arguments a generated call leaves out: none in most calls; otherwise one, all, or a random subset"""
+    if rng.random() >= p:
+        return set()
+    names = list(DOC[fname])
+    r = rng.random()
+    if r < 0.35:
+        return {rng.choice(names)}
+    if r < 0.55:
+        return set(names)
+    return {n for n in names if rng.random() < 0.5} or {rng.choice(names)}
+
+
+def same_result(a, b):
+    if a[0] != b[0]:
+        return False
+    return a[1] == b[1] if a[0] == "err" else bool(a[1].equals(b[1]))
+
+
+def call_omitting(ctx, fn, fname, args, full, om, desc):
+    """the call with every optional argument written out (`full`: omitted ones already at their documented default) and, when some are
+    omitted, the call that leaves them out: both must give the same result.  -> the result of the call as the user wrote it"""
+    explicit = core.call_impl(fn, *args, **full)
+    if not om:
+        return explicit
+    omitted = core.call_impl(fn, *args, **{k: v for k, v in full.items() if k not in om})
+    ctx.count("defaults:" + fname)
+    for k in om:
+        ctx.count("defaults:" + fname + ":" + k)
+    if not same_result(explicit, omitted):
+        ctx.violation(f"{fname} called without {sorted(om)} differs from the call that writes the documented defaults "
+                      f"({ {k: DOC[fname][k] for k in sorted(om)} }) out", {**desc, "omitted_arguments": sorted(om)},
+                      explicit[1] if explicit[0] == "err" else np.asarray(explicit[1].values).tolist(),
+                      omitted[1] if omitted[0] == "err" else np.asarray(omitted[1].values).tolist())
+    return omitted
+
+
+# ------------------------------------------------------------------------------------------
 ENV_CONTRACT = "lower<=original<=upper, upper = running max, lower = reverse running min (both over the known points, NaN ignored), NaN kept"
 
 
@@ -395,8 +451,10 @@ def check_fill(ctx, da=None, sizes=None, ths=None, method=None, mn=None, tr=None
 
 def check_add_thresholds(ctx, given=None):
     rng = ctx.rng
+    om = set()
     if given is not None:
-        da, sizes, ths, new, method, mn = given
+        da, sizes, ths, new, method, mn = given[:6]
+        om = {"min_nonnan"} if len(given) > 6 and given[6] else set()
         tr = None
     else:
         da, sizes, ths = gen_array(rng, nan_mode=rng.choice(["none", "scatter", "line"]), nmin=2)
@@ -411,10 +469,17 @@ def check_add_thresholds(ctx, given=None):
         if rng.random() < 0.1:
             new.append(NAN)
         mn = rng.choice([1, 2, 2, 3])
+        om = omit_some(rng, "add_thresholds", p=0.25)
+    if om:
+        mn = 2                       # min_nonnan left out: the documented default
     da = moved(da, ths, tr)
     txs = thr_values(ths, tr)
     desc = {"fn": "add_thresholds", "cdf": gens.da_repr(da), "new_thresholds": new, "fill_method": method, "min_nonnan": mn}
-    impl = core.call_impl(C().add_thresholds, da, TD, new, method, min_nonnan=mn)
+    impl = call_omitting(ctx, C().add_thresholds, "add_thresholds", (da, TD, new, method), dict(min_nonnan=mn), om, desc)
+    if mn == 1 and method in ("step", "forward", "backward"):
+        ctx.count("add_thresholds:min_nonnan_1")
+        if any(sum(1 for v in l if not np.isnan(v)) == 1 for l in lines_of(da, sizes)[2]):
+            ctx.count("add_thresholds:min_nonnan_1:line_with_one_known_point")
     dims, labs, lines = lines_of(da, sizes)
     m = mcall(ctx, "c17_add_thresholds", enc_list([enc_nums(txs), enc_lines(lines), enc_nums(new), enc_str(method), str(mn)]))
     ctx.case(desc, nontrivial=impl[0] == "ok")
@@ -572,7 +637,7 @@ def check_propagate_dataset(ctx, da, sizes):
 EPS = [4e-8, -4e-8, 1 / 3 * 1e-6, 0.123456789e-2]     # more than 7 decimals
 
 
-def check_observed(ctx, obs_vals=None, tv=None, inc=None, prec=None, dtype=None):
+def check_observed(ctx, obs_vals=None, tv=None, inc=None, prec=None, dtype=None, omit=None):
     rng = ctx.rng
     c = C()
     if obs_vals is None and rng.random() < 0.15:      # whole-number observations stored as (unsigned) integers
@@ -590,6 +655,10 @@ def check_observed(ctx, obs_vals=None, tv=None, inc=None, prec=None, dtype=None)
             obs_vals[rng.randrange(n)] = rng.choice([INF, -INF])
         tv = None if rng.random() < 0.3 else [rng.randint(0, 8) / 2.0 + (rng.choice(EPS + [0.0]) if fine else 0.0) for _ in range(rng.randint(1, 4))]
         inc = True if tv is None else rng.random() < 0.5
+    om = set(omit) if omit is not None else omit_some(rng, "observed_cdf")
+    tv, inc, prec = (None if "threshold_values" in om else tv), (True if "include_obs_in_thresholds" in om else inc), (0 if "precision" in om else prec)
+    if tv is None and not inc:      # nothing to build thresholds from: keep the call meaningful
+        inc, om = True, om | {"include_obs_in_thresholds"}
     n = len(obs_vals)
     sizes = {"a": n}
     obs = xr.DataArray(obs_vals, dims=["a"], coords={"a": list(range(n))})
@@ -597,7 +666,7 @@ def check_observed(ctx, obs_vals=None, tv=None, inc=None, prec=None, dtype=None)
         obs = obs.astype(dtype)
         ctx.count("observed_cdf:integer_storage")
     desc = {"fn": "observed_cdf", "obs_dtype": str(obs.dtype), "obs": gens.da_repr(obs), "threshold_values": tv, "include_obs_in_thresholds": inc, "precision": prec}
-    impl = core.call_impl(c.observed_cdf, obs, TD, threshold_values=tv, include_obs_in_thresholds=inc, precision=prec)
+    impl = call_omitting(ctx, c.observed_cdf, "observed_cdf", (obs, TD), dict(threshold_values=tv, include_obs_in_thresholds=inc, precision=prec), om, desc)
     ctx.case(desc, nontrivial=impl[0] == "ok")
     ctx.count("observed_cdf")
     ctx.count("observed_cdf:" + ("include_obs" if inc else "given_thresholds_only") + (":precision" if prec > 0 else ":no_rounding"))
@@ -649,11 +718,25 @@ def check_round(ctx, vals=None, p=None):
         p = rng.choice([0, 0, 0.5, 0.25, 2, 1, 0.125, -1])
         fine = p == 0 and rng.random() < 0.7
         vals = [NAN if rng.random() < 0.1 else rng.randint(-64, 64) / 16.0 + (rng.choice(EPS) if fine else 0.0) for _ in range(rng.randint(1, 6))]
+        if p > 0 and rng.random() < 0.3:      # a precision whose multiples need all 7 final decimals (k/128); values next to, not on, a multiple
+            p = 2.0 ** -7
+            vals = [rng.randint(-256, 256) / 128.0 + rng.choice([0.001, -0.002, 0.0, 0.003]) for _ in vals]
+            ctx.count("round_values:seven_decimals")
         if rng.random() < 0.25:
             vals[rng.randrange(len(vals))] = rng.choice([INF, -INF])
-    impl = core.call_impl(c.round_values, xr.DataArray(vals, dims=["x"]), p)
-    m = mcall(ctx, "c17_round", enc_list([enc_nums(vals), enc_num(p), enc_bool(True)]))
     desc = {"fn": "round_values", "values": vals, "rounding_precision": p}
+    # final_round_decpl left out (documented default 7) and written out
+    impl = call_omitting(ctx, c.round_values, "round_values", (xr.DataArray(vals, dims=["x"]), p), dict(final_round_decpl=7), {"final_round_decpl"}, desc)
+    m = mcall(ctx, "c17_round", enc_list([enc_nums(vals), enc_num(p), enc_bool(True)]))
+    if impl[0] == "ok" and p > 0:
+        # another number of final decimals: the nearest multiple (exact here: dyadic precision, at most 7 decimals) rounded to that many decimals
+        d = rng.choice([0, 1, 2, 3])
+        other = core.call_impl(c.round_values, xr.DataArray(vals, dims=["x"]), p, final_round_decpl=d)
+        ctx.count("round_values:final_round_decpl_other")
+        want = np.round(np.asarray(impl[1].values, dtype=float), d)
+        if other[0] != "ok" or not np.array_equal(np.asarray(other[1].values, dtype=float), want, equal_nan=True):
+            ctx.violation("round_values(final_round_decpl=d) is not the nearest multiple of the precision rounded to d decimals", {**desc, "final_round_decpl": d},
+                          want.tolist(), other[1] if other[0] == "err" else np.asarray(other[1].values).tolist())
     ctx.case(desc, nontrivial=impl[0] == "ok")
     ctx.count("round_values")
     if any(np.isinf(v) for v in vals):
@@ -681,6 +764,46 @@ def check_round(ctx, vals=None, p=None):
             ctx.tie_fail("round_values raises/returns differently from the model", desc, str(impl[1])[:100], str(m)[:100])
     elif not core.close_list([float(v) for v in impl[1].values], core.dec_nums(m)):
         ctx.tie_fail("round_values differs from the model", desc, impl[1].values.tolist(), m)
+
+
+def check_integrate(ctx, da=None, sizes=None, ths=None, pw=None, omit=None):
+    """integrate_square_piecewise_linear: the sum over the pieces between neighbouring thresholds whose two ordinates are known of
+    (x1-x0)(a^2+ab+b^2)/3, times piece_weight at the piece's right end when given (a piece with a NaN weight is skipped); NaN without any
+    such piece.  piece_weight left out = piece_weight=None written out."""
+    rng = ctx.rng
+    if da is None:
+        da, sizes, ths = gen_array(rng, nan_mode=rng.choice(["none", "scatter", "line"]))
+        om = omit_some(rng, "integrate_square_piecewise_linear", p=0.4)
+        if not om and rng.random() < 0.6:
+            pw = xr.DataArray([NAN if rng.random() < 0.1 else rng.randint(0, 4) / 4.0 for _ in ths], dims=[TD], coords={TD: [t / 2.0 for t in ths]})
+    else:
+        om = set(omit or ())
+    desc = {"fn": "integrate_square_piecewise_linear", "function_values": gens.da_repr(da), "piece_weight": None if pw is None else gens.da_repr(pw)}
+    impl = call_omitting(ctx, C().integrate_square_piecewise_linear, "integrate_square_piecewise_linear", (da, TD), dict(piece_weight=pw), om, desc)
+    ctx.case(desc, nontrivial=impl[0] == "ok")
+    ctx.count("integrate")
+    if pw is not None:
+        ctx.count("integrate:piece_weight")
+    if impl[0] != "ok":
+        ctx.violation("integrate_square_piecewise_linear raises", desc, "a value", impl[1])
+        return
+    dims, labs, lines = lines_of(da, sizes)
+    xs = [Fraction(t) / 2 for t in sorted(ths)]
+    ws = None if pw is None else [F(float(v)) for v in pw.sortby(TD).values]
+    for lb, l in zip(labs, lines):
+        sel = dict(zip(dims, lb))
+        tot, any_piece = Fraction(0), False
+        for i in range(1, len(l)):
+            a, b = F(l[i - 1]), F(l[i])
+            if a is None or b is None or (ws is not None and ws[i] is None):
+                continue
+            any_piece = True
+            tot += (xs[i] - xs[i - 1]) * (a * a + a * b + b * b) / 3 * (1 if ws is None else ws[i])
+        g = float(impl[1].sel(sel).values) if sel else float(impl[1].values)
+        if not (np.isnan(g) if not any_piece else (not np.isnan(g) and abs(g - float(tot)) <= 1e-9)):
+            ctx.violation("integrate_square_piecewise_linear is not the (piece-weighted) integral of the squared piecewise-linear function over the "
+                          "pieces with known end values", {**desc, "case": sel}, str(tot) if any_piece else "nan", g)
+            break
 
 
 def crps_of(fc, obs, sizes, add, ffm, im, extra=()):
@@ -731,9 +854,13 @@ def check_adjust(ctx, given=None):
         da = moved(da, ths, tr)
         obs = obs.copy(data=tr[0] + tr[1] * np.asarray(obs.values, dtype=float))
         add = None if add is None else [mv(x, tr) for x in add]
+    om = omit_some(rng, "adjust_fcst_for_crps")      # arguments left out: the call is the one with their documented defaults
+    D = DOC["adjust_fcst_for_crps"]
+    tol, add, ffm, im = (D["decreasing_tolerance"] if "decreasing_tolerance" in om else tol), (None if "additional_thresholds" in om else add), \
+        (D["fcst_fill_method"] if "fcst_fill_method" in om else ffm), (D["integration_method"] if "integration_method" in om else im)
     if tol >= 0 and rng.random() < 0.25:
         adjust_inf_obs(ctx, da, obs, tol, add, ffm, im)
-    return _check_adjust(ctx, da, sizes, ths, obs, tol, add, ffm, im, tr)
+    return _check_adjust(ctx, da, sizes, ths, obs, tol, add, ffm, im, tr, om)
 
 
 ADJ_INF_KEY = "adjust-infinite-observation"
@@ -769,14 +896,15 @@ def adjust_inf_obs(ctx, da, obs, tol, add, ffm, im):
                       np.asarray(y.values).tolist(), np.asarray(x.values).tolist(), finding_key=ADJ_INF_KEY)
 
 
-def _check_adjust(ctx, da, sizes, ths, obs, tol, add, ffm, im, tr=None):
+def _check_adjust(ctx, da, sizes, ths, obs, tol, add, ffm, im, tr=None, om=()):
     import scores.probability as P
     dims, labs, lines = lines_of(da, sizes)
     plines = [[NAN] * len(l) if any(np.isnan(v) for v in l) else l for l in lines]
     decs = [sum((Fraction(a) - Fraction(b) for a, b in zip(l, l[1:]) if not (np.isnan(a) or np.isnan(b)) and a > b), Fraction(0)) for l in plines]
     desc = {"fn": "adjust_fcst_for_crps", "fcst": gens.da_repr(da), "obs": gens.da_repr(obs), "decreasing_tolerance": tol, "additional_thresholds": add,
             "fcst_fill_method": ffm, "integration_method": im}
-    impl = core.call_impl(P.adjust_fcst_for_crps, da, TD, obs, decreasing_tolerance=tol, additional_thresholds=add, fcst_fill_method=ffm, integration_method=im)
+    impl = call_omitting(ctx, P.adjust_fcst_for_crps, "adjust_fcst_for_crps", (da, TD, obs),
+                         dict(decreasing_tolerance=tol, additional_thresholds=add, fcst_fill_method=ffm, integration_method=im), set(om), desc)
     cases = []
     obs_of = []
     for lb, l in zip(labs, lines):
@@ -999,6 +1127,25 @@ def probes(ctx):
     check_decreasing(ctx, arr([[0, 0.5, 1]], [0, 2, 4]), {"a": 1}, [0, 2, 4], -0.125)          # negative tolerance
     check_decreasing(ctx, arr([[0, NAN, 1], [0, 0.5, 1]], [0, 2, 4]), {"a": 2}, [0, 2, 4], 0.0)  # a partly-NaN CDF
     check_round(ctx, [0.5, 1.25], -1)
+    check_round(ctx, [3 / 128 + 0.001, 135 / 128 - 0.002, -59 / 128, 1 / 128], 2.0 ** -7)      # multiples with 7 decimals: final_round_decpl=7 keeps them
+    ctx.count("round_values:seven_decimals")
+    # every optional argument of observed_cdf / adjust_fcst_for_crps left out, one at a time and all at once, on data where each default
+    # matters (observations that are not multiples of 1/2 and not among threshold_values; a dip the tolerance 0 flags; observations between
+    # thresholds so that the fill method and the integration method change the ranking)
+    D = DOC["observed_cdf"]
+    for k in list(D) + [list(D)]:
+        for inc in (True, False):
+            check_observed(ctx, [0.8125, 1.25, NAN, 2.0], [0.75, 1.0, 1.5], inc, 0.5, omit=[k] if isinstance(k, str) else k)
+    D = DOC["adjust_fcst_for_crps"]
+    da = arr(dips, ths)
+    ob = xr.DataArray([0.75, 1.25, 1.75, 2.25, 2.75], dims=["a"], coords={"a": list(range(len(dips)))})
+    for k in list(D) + [list(D)]:
+        om = {k} if isinstance(k, str) else set(k)
+        for tol, add, ffm, im in ((0.25, dense, "step", "trapz"), (0.5, [1.25, 2.75], "backward", "trapz")):
+            tol, add, ffm, im = (0 if "decreasing_tolerance" in om else tol), (None if "additional_thresholds" in om else add), \
+                ("linear" if "fcst_fill_method" in om else ffm), ("exact" if "integration_method" in om else im)
+            _check_adjust(ctx, da, {"a": len(dips)}, ths, ob, tol, add, ffm, im, None, om)
+    ctx.count("probe:defaults")
     # envelope of CDFs whose decreases all sit across NaN gaps (gap of 1-3 NaN; drop tiny / moderate / full; also leading and trailing NaN
     # and two gaps): together in one array in which no neighbouring pair decreases, each alone (1-D), next to a line with a neighbouring
     # decrease, and with the threshold dimension first
@@ -1049,6 +1196,17 @@ def sweep(ctx):
                 if method == "linear" and mn < 2:
                     continue
                 check_fill(ctx, da, sizes, ths, method, mn)
+        # add_thresholds over the same lines (every number of known points, 0 .. n): new thresholds between / outside / on the given ones,
+        # every fill method x min_nonnan 1-3 (1 is valid for step / forward / backward) and min_nonnan left out
+        newt = [-0.5, 0.5, float(n) - 0.5, 0.0, float(n) + 1.0]
+        for method in FILLS + ["none"]:
+            for mn in (1, 2, 3):
+                if method == "linear" and mn < 2:
+                    continue
+                check_add_thresholds(ctx, given=(da, sizes, ths, newt, method, mn))
+            check_add_thresholds(ctx, given=(da, sizes, ths, newt, method, 2, True))
+        check_integrate(ctx, da, sizes, ths, None, {"piece_weight"})
+        check_integrate(ctx, da, sizes, ths, xr.DataArray([[1.0, 0.0, 0.5, NAN][k % 4] for k in range(n)], dims=[TD], coords={TD: [t / 2.0 for t in ths]}))
         clean = [l for l in lines if all(np.isnan(v) for v in l) or not any(np.isnan(v) for v in l)]
         dc = xr.DataArray(np.array(clean, dtype=float), dims=["a", TD], coords={"a": list(range(len(clean))), TD: [t / 2.0 for t in ths]})
         for tol in (0.0, 0.5, 1.0):
@@ -1070,5 +1228,6 @@ def run(ctx):
         check_add_thresholds(ctx)
         check_decreasing(ctx)
         check_small_tools(ctx)
+        check_integrate(ctx)
         check_adjust(ctx)
         check_adjust(ctx)
